@@ -1,6 +1,8 @@
 package props
 
 import (
+	"bytes"
+	"context"
 	"errors"
 	"fmt"
 	"math/rand/v2"
@@ -19,7 +21,7 @@ func init() {
 		ID:    "C04",
 		Level: "exploration",
 		Rule: "random Muxer histories over Add/Remove/SetPCRPID/WriteTables/WriteData/WritePacket with valid and rejected arguments (unknown PID, duplicate PID, oversize WritePacket payload / adaptation field, " +
-			"invalid PCR PID, PMT too large for one packet), payload sizes around every packet boundary, first-packet adaptation fields leaving 0,1,2,few,many bytes, retransmit periods 1..50, edge-of-contract PES optional headers in a quarter of the histories, plus an exhaustive " +
+			"invalid PCR PID, PMT too large for one packet), payload sizes around every packet boundary, first-packet adaptation fields leaving 0,1,2,few,many bytes, retransmit periods 1..50, edge-of-contract PES optional headers in a quarter of the histories, automatic PID assignment until the range is exhausted, automatic PID assignment until the range is exhausted, plus an exhaustive " +
 			"WritePacket size grid; after every call the bytes that reached the writer tap are judged by the independent packet decoder; distinct = hash of the output bytes; non-trivial = ≥1 rejected and ≥1 accepted call or ≥3 packets",
 		Assumptions: []string{"writer tap accepts everything (I/O failures are C18's subject)", "WritePacket traffic uses PIDs the Muxer does not own"},
 		Shards:      32,
@@ -29,6 +31,7 @@ func init() {
 			need(m, &out, "calls_checked", 10000)
 			need(m, &out, "packets_decoded", 30000)
 			need(m, &out, "rejected_calls", 500)
+			need(m, &out, "auto_pid_exhaustion_runs", 2)
 			need(m, &out, "rejected_then_successful_calls", 300)
 			need(m, &out, "writepacket_grid_cases", 2000)
 			need(m, &out, "writepacket_exact_fit_cases", 2000)
@@ -96,6 +99,14 @@ func runMuxStruct(c *mon.Ctx, prop string) {
 		}
 	}
 	if prop == "C04" {
+		// automatic PID assignment until the range is exhausted: every call terminates, the refusal is an error (not a PID the Muxer
+		// must not use: the PMT PID, the null PID, a PID already taken), and only PIDs below 0x1FFF ever become known to WriteData
+		for v := int64(0); v < c.Pick(2, 6); v++ {
+			if !c.Mine("auto-exhaust", v) {
+				continue
+			}
+			autoExhaust(c, v, c.Rng("auto-exhaust", v))
+		}
 		// WritePacket exact-fit boundaries: for every subset of adaptation parts x extension parts the payload is sized to fit
 		// exactly, one byte short, and 1 / 2 / many bytes too long (the rejected ones must leave nothing in the output)
 		for sub := int64(0); sub < 32*8; sub++ {
@@ -171,6 +182,71 @@ func runMuxStruct(c *mon.Ctx, prop string) {
 				c.Count("writepacket_grid_cases")
 			}
 		}
+	}
+}
+
+func autoExhaust(c *mon.Ctx, idx int64, r *rand.Rand) {
+	out := &bytes.Buffer{}
+	m := astits.NewMuxer(context.Background(), out)
+	explicit := map[uint16]bool{}
+	for k := 0; k < int(idx)*3; k++ {
+		pid := []uint16{0x1ffe, 0x1ffd, 0x100, 0x101, 0xfff, 0x1001, uint16(0x100 + r.IntN(0x1eff))}[r.IntN(7)]
+		if pid == 0x1000 || explicit[pid] {
+			continue
+		}
+		if err := m.AddElementaryStream(astits.PMTElementaryStream{ElementaryPID: pid, StreamType: astits.StreamTypeMPEG2Audio}); err == nil {
+			explicit[pid] = true
+		}
+	}
+	inRange := 0
+	for p := range explicit {
+		if p >= 0x100 {
+			inRange++
+		}
+	}
+	want := (0x1fff - 0x100) - 1 - inRange // the PMT PID 0x1000 is never handed out
+	ok, refused := 0, 0
+	pn, v, st := mon.Guarded(func() {
+		for k := 0; k < 0x2100 && refused < 3; k++ {
+			if err := m.AddElementaryStream(astits.PMTElementaryStream{StreamType: astits.StreamTypeH264Video}); err != nil {
+				refused++
+			} else if refused > 0 {
+				ok = -1 << 20 // an assignment after a refusal without any removal in between
+			} else {
+				ok++
+			}
+		}
+	})
+	c.Count("auto_pid_exhaustion_runs")
+	c.Add("auto_pids_assigned", int64(ok))
+	c.Case(mon.HashStr("auto-exhaust", fmt.Sprint(idx)), true)
+	data := map[string]any{"explicit_pids_first": len(explicit)}
+	if pn {
+		c.Violate("C04/auto-pid/panic", "auto-exhaust", idx, fmt.Sprintf("%v\n%s", v, st), data)
+		return
+	}
+	if ok != want || refused != 3 {
+		c.Violate("C04/auto-pid/assignments-before-refusal", "auto-exhaust", idx, fmt.Sprintf("%d automatic assignments succeeded and %d were refused; %d PIDs of 0x0100..0x1FFE are free (PMT PID and %d explicit ones excluded)", ok, refused, want, inRange), data)
+		return
+	}
+	// which PIDs does the Muxer own now? WriteData on an unknown PID is refused with ErrPIDNotFound before anything else happens
+	d := &astits.MuxerData{PES: &astits.PESData{Header: &astits.PESHeader{StreamID: 0xe0, OptionalHeader: &astits.PESOptionalHeader{MarkerBits: 2}}, Data: []byte{1}}}
+	for pid := 0; pid <= 0x1fff; pid++ {
+		d.PID = uint16(pid)
+		var err error
+		if pn, v, st = mon.Guarded(func() { _, err = m.WriteData(d) }); pn {
+			c.Violate("C04/auto-pid/panic", "auto-exhaust", idx, fmt.Sprintf("%v\n%s", v, st), data)
+			return
+		}
+		owned := !errors.Is(err, astits.ErrPIDNotFound)
+		should := explicit[uint16(pid)] || (pid >= 0x100 && pid < 0x1fff && pid != 0x1000)
+		if owned != should {
+			c.Violate("C04/auto-pid/owned-pid-set", "auto-exhaust", idx, fmt.Sprintf("pid %#x: owned=%v, expected %v (WriteData returned %v)", pid, owned, should, err), data)
+			return
+		}
+	}
+	if out.Len()%188 != 0 {
+		c.Violate("C04/partial-packet-in-output:auto-exhaust", "auto-exhaust", idx, fmt.Sprintf("%d bytes", out.Len()), data)
 	}
 }
 
